@@ -17,7 +17,7 @@ from deep.api.tracepoint.trigger import build_trigger, Trigger, LineLocation, Lo
 from deep.api.tracepoint.tracepoint_config import MetricDefinition
 
 PATH, LINE = 'c04_host.py', 4
-FC = [None, '-1', '0', '1', '2', '3', '5', '007', ' 3', 'x', '', '1.5']
+FC = [None, '-1', '0', '1', '2', '3', '5', '007', ' 3', 'x', '', '1.5', '-2', '-100']
 FP = [None, '0', '1', '10', '100', '1000', 'x', '', '2.5', ' 20']
 
 
